@@ -227,11 +227,13 @@ Print Assumptions C04_rs_transfer_junk_independent.
 (* ---------------------------------------------------------------- 3b. smoothed_aggr_emin (field)
    Proved: the filtered matrix the code assembles has the dense semantics A_F of the SA formula and
    its diagonal vector is D (one stored diagonal entry per row).
-   FULL STATEMENT (unproved; the model emin_transfer is tied exactly to the code and the formulas are
-   checked on every implementation output by the oracle emin_formula_ok):
+   FULL STATEMENT
      mget P i j = emin_P_spec A st Pt i j   (P = P_t - D^-1 A_F P_t Omega)
      mget R j i = emin_R_spec A st Pt j i   (R = P_t^T - Omega P_t^T A_F D^-1)
-     Omega_j = <(A_F P_t)_j, (A_F D^-1 A_F P_t)_j> / <(A_F D^-1 A_F P_t)_j, (A_F D^-1 A_F P_t)_j>. *)
+     Omega_j = <(A_F P_t)_j, (A_F D^-1 A_F P_t)_j> / <(A_F D^-1 A_F P_t)_j, (A_F D^-1 A_F P_t)_j>
+   is PROVED for the model below: section 7 (C04_emin_formulas, C04_emin_transfer_formulas*; at most 16 threads)
+   and section 9 (C04_emin_full_statement, C04_emin_transfer_full: Omega as the quotient of the two accumulated
+   column inner products, no guard on a zero denominator, P and R given Omega, EVERY thread count). *)
 Theorem C04_emin_filter_dense_partial (S : Scalar) (Sft : Sfield S) (A : crs S) st i k : i < nrows A ->
   length (filter (fun e : nat * S * bool => Nat.eqb (fst (fst e)) i) (zip_row (nth i (rows A) []) (nth i st []))) = 1%nat ->
   mget (fst (emin_filter A st)) i k = sa_AF A st i k /\ vget (snd (emin_filter A st)) i = sa_D A st i.
@@ -694,3 +696,181 @@ Example C04_emin_eigenvector_nonvacuous :
   | _ => False
   end.
 Proof. vm_compute. split; reflexivity. Qed.
+
+(* ==================================================================== 9. smoothed_aggr_emin: the full statement of
+   section 3b in layers and for every thread count (EminProofs2b.v, EminProofs2c.v).
+   Guards (the ones the code needs): column indices in range and A square (wf), every row stores its diagonal
+   exactly once and the strength flags cover the row (emin_regular), P_t has strictly sorted rows (true of
+   tentative_prolongation: at most one entry per row), adjoint = identity (real scalars), and -- only when
+   backend::product() takes its spgemm_rmerge branch, i.e. more than 16 threads -- strictly sorted rows of A
+   (rmerge merges the rows of its right operand).  Only ring laws + x / y = x * inverse(y) are used: inverse(0)
+   is whatever the value type returns.
+     Omega:  omega[] returned by interpolation() has ncols(P_t) entries and
+             omega[j] = num_j / den_j,  num_j = sum_i AP(i,j) ADAP(i,j),  den_j = sum_i ADAP(i,j)^2
+             (AP = A_F P_t, ADAP = A_F D^-1 A_F P_t: the sums the code accumulates in omega[] and denum[]);
+             the code has NO guard on den_j: den_j = 0  =>  omega[j] = inverse(0) * num_j.
+     P, R:   the dense formulas with that Omega. *)
+From Amgcl Require Import EminProofs2b EminProofs2c.
+
+Section EminFull.
+Variable S : Scalar.
+Hypothesis Sft : Sfield S.
+Hypothesis Hadj : forall x : S, sadj x = x.
+
+(* layer 1, Omega *)
+Theorem C04_emin_omega_quotient nt (A : crs S) (st : flags) (Pt : crs S) :
+  (16 < nt -> forallb sorted_strict (rows A) = true) ->
+  wf A = true -> ncols A = nrows A -> emin_regular A st = true ->
+  nrows Pt = nrows A -> forallb sorted_strict (rows Pt) = true ->
+  let fd := emin_filter A st in
+  let omega := snd (emin_interpolation nt (fst fd) (snd fd) Pt) in
+  length omega = ncols Pt /\
+  forall j, j < ncols Pt ->
+    vget omega j = emin_num S A st Pt j / emin_den S A st Pt j /\
+    (emin_den S A st Pt j = s0 -> vget omega j = sinv s0 * emin_num S A st Pt j).
+Proof. exact (emin_omega_quotient S Sft Hadj nt A st Pt). Qed.
+
+(* layer 2, P given Omega (<= 16 threads; any thread count follows with C04_emin_threads) *)
+Theorem C04_emin_P_given_omega nt (A : crs S) (st : flags) (Pt : crs S) :
+  nt <= 16 -> wf A = true -> ncols A = nrows A -> emin_regular A st = true ->
+  nrows Pt = nrows A -> forallb sorted_strict (rows Pt) = true ->
+  let fd := emin_filter A st in
+  let po := emin_interpolation nt (fst fd) (snd fd) Pt in
+  forall i j, i < nrows A -> j < ncols Pt ->
+    mget (fst po) i j = mget Pt i j - sinv (sa_D A st i) * emin_AP A st Pt i j * vget (snd po) j.
+Proof. exact (emin_P_given_omega S Sft nt A st Pt). Qed.
+
+(* layer 3, R given Omega: for EVERY vector w handed to restriction() *)
+Theorem C04_emin_R_given_omega nt (A : crs S) (st : flags) (Pt : crs S) :
+  nt <= 16 -> wf A = true -> ncols A = nrows A -> emin_regular A st = true ->
+  nrows Pt = nrows A -> forallb sorted_strict (rows Pt) = true ->
+  let fd := emin_filter A st in
+  forall (w : vec S) j i, j < ncols Pt -> i < nrows A ->
+    mget (emin_restriction nt (fst fd) (snd fd) Pt w) j i
+    = mget Pt i j - vget w j * emin_RA A st Pt j i * sinv (sa_D A st i).
+Proof. exact (emin_R_given_any_omega S Sft Hadj nt A st Pt). Qed.
+
+(* the thread count does not matter: spgemm_rmerge (> 16 threads) and spgemm_saad + sort build the same crs
+   when the rows of the right operand are strictly sorted; so do interpolation(), restriction(), transfer_operators() *)
+Theorem C04_product_sorted_threads nt nt' (A B : crs S) : forallb sorted_strict (rows B) = true ->
+  product nt A B true = product nt' A B true.
+Proof. exact (product_sorted_threads S (F_R Sft) nt nt' A B). Qed.
+
+Theorem C04_emin_threads nt nt' (eps2 : S) bs (A : crs S) junk :
+  forallb sorted_strict (rows A) = true ->
+  emin_transfer nt eps2 bs A junk = emin_transfer nt' eps2 bs A junk.
+Proof. exact (emin_transfer_threads S Sft nt nt' eps2 bs A junk). Qed.
+
+(* all layers, every thread count *)
+Theorem C04_emin_full_statement nt (A : crs S) (st : flags) (Pt : crs S) :
+  (16 < nt -> forallb sorted_strict (rows A) = true) ->
+  wf A = true -> ncols A = nrows A -> emin_regular A st = true ->
+  nrows Pt = nrows A -> forallb sorted_strict (rows Pt) = true ->
+  let fd := emin_filter A st in
+  let po := emin_interpolation nt (fst fd) (snd fd) Pt in
+  let P := fst po in
+  let R := emin_restriction nt (fst fd) (snd fd) Pt (snd po) in
+  length (snd po) = ncols Pt /\
+  (forall j, j < ncols Pt ->
+     vget (snd po) j = emin_num S A st Pt j / emin_den S A st Pt j /\
+     (emin_den S A st Pt j = s0 -> vget (snd po) j = sinv s0 * emin_num S A st Pt j)) /\
+  (forall i j, i < nrows A -> j < ncols Pt ->
+     mget P i j = emin_P_spec A st Pt i j /\ mget R j i = emin_R_spec A st Pt j i).
+Proof. exact (emin_full_statement S Sft Hadj nt A st Pt). Qed.
+
+(* transfer_operators() of the policy, any block_size, every thread count *)
+Theorem C04_emin_transfer_full nt (eps2 : S) bs (A : crs S) junk P R :
+  emin_transfer nt eps2 bs A junk = TrOk P R ->
+  exists count id st,
+    pointwise_aggregates eps2 bs 0 A junk = AggOk count id st /\
+    ((16 < nt -> forallb sorted_strict (rows A) = true) ->
+     wf A = true -> ncols A = nrows A -> emin_regular A st = true -> length id = nrows A ->
+     let Pt := tentative_prolongation count id in
+     forall i j, i < nrows A -> j < count ->
+       mget P i j = emin_P_spec A st Pt i j /\ mget R j i = emin_R_spec A st Pt j i).
+Proof. exact (emin_transfer_full S Sft Hadj nt eps2 bs A junk P R). Qed.
+End EminFull.
+
+(* closed at the exact rationals *)
+Theorem C04_emin_full_statement_Qc nt (A : crs QcS) (st : flags) (Pt : crs QcS) :
+  (16 < nt -> forallb sorted_strict (rows A) = true) ->
+  wf A = true -> ncols A = nrows A -> emin_regular A st = true ->
+  nrows Pt = nrows A -> forallb sorted_strict (rows Pt) = true ->
+  let fd := emin_filter A st in
+  let po := emin_interpolation nt (fst fd) (snd fd) Pt in
+  let P := fst po in
+  let R := emin_restriction nt (fst fd) (snd fd) Pt (snd po) in
+  length (snd po) = ncols Pt /\
+  (forall j, j < ncols Pt ->
+     vget (snd po) j = emin_num QcS A st Pt j / emin_den QcS A st Pt j /\
+     (emin_den QcS A st Pt j = s0 -> vget (snd po) j = sinv s0 * emin_num QcS A st Pt j)) /\
+  (forall i j, i < nrows A -> j < ncols Pt ->
+     mget P i j = emin_P_spec A st Pt i j /\ mget R j i = emin_R_spec A st Pt j i).
+Proof. exact (C04_emin_full_statement QcS QcS_field (fun x => eq_refl) nt A st Pt). Qed.
+Print Assumptions C04_emin_full_statement_Qc.
+
+Theorem C04_emin_transfer_full_Qc nt (eps2 : QcS) bs (A : crs QcS) junk P R :
+  emin_transfer nt eps2 bs A junk = TrOk P R ->
+  exists count id st,
+    pointwise_aggregates eps2 bs 0 A junk = AggOk count id st /\
+    ((16 < nt -> forallb sorted_strict (rows A) = true) ->
+     wf A = true -> ncols A = nrows A -> emin_regular A st = true -> length id = nrows A ->
+     let Pt := tentative_prolongation count id in
+     forall i j, i < nrows A -> j < count ->
+       mget P i j = emin_P_spec A st Pt i j /\ mget R j i = emin_R_spec A st Pt j i).
+Proof. exact (C04_emin_transfer_full QcS QcS_field (fun x => eq_refl) nt eps2 bs A junk P R). Qed.
+Print Assumptions C04_emin_transfer_full_Qc.
+
+Theorem C04_emin_threads_Qc nt nt' (eps2 : QcS) bs (A : crs QcS) junk :
+  forallb sorted_strict (rows A) = true ->
+  emin_transfer nt eps2 bs A junk = emin_transfer nt' eps2 bs A junk.
+Proof. exact (C04_emin_threads QcS QcS_field nt nt' eps2 bs A junk). Qed.
+Print Assumptions C04_emin_threads_Qc.
+
+(* a zero denominator at the exact rationals (an ordered field with inverse(0) = 0): den_j = 0 exactly when
+   column j of A_F D^-1 A_F P_t vanishes; then num_j = 0 as well, the code computes Omega_j = inverse(0) * 0 = 0,
+   and column j of P / row j of R are the unsmoothed column of P_t / row of P_t^T.
+   (In binary64 the same expression is inf * 0 = NaN: outside the exact model, see the meta note.) *)
+Theorem C04_emin_zero_denominator_Qc nt (A : crs QcS) (st : flags) (Pt : crs QcS) :
+  (16 < nt -> forallb sorted_strict (rows A) = true) ->
+  wf A = true -> ncols A = nrows A -> emin_regular A st = true ->
+  nrows Pt = nrows A -> forallb sorted_strict (rows Pt) = true ->
+  forall j, j < ncols Pt -> emin_den QcS A st Pt j = s0 ->
+  let fd := emin_filter A st in
+  let po := emin_interpolation nt (fst fd) (snd fd) Pt in
+  let R := emin_restriction nt (fst fd) (snd fd) Pt (snd po) in
+  (forall i, i < nrows A -> emin_ADAP A st Pt i j = s0) /\
+  emin_num QcS A st Pt j = s0 /\ vget (snd po) j = s0 /\
+  forall i, i < nrows A -> mget (fst po) i j = mget Pt i j /\ mget R j i = mget Pt i j.
+Proof. exact (emin_zero_den_Qc_threads nt A st Pt). Qed.
+Print Assumptions C04_emin_zero_denominator_Qc.
+
+(* non-vacuity, non-trivial Omega: 1-D Poisson on 5 points (EminProofs2c.pois5), eps_strong^2 = 1/16: all guards
+   hold, two aggregates {0,1} {2,3,4}, the accumulated sums are omega[] = (3, 4), denum[] = (15/4, 27/4), the
+   returned vector is Omega = (4/5, 16/27), P <> P_t, the dense formulas hold (oracle emin_formula_ok), and the
+   17-thread build (spgemm_rmerge) returns the same P, Omega, R *)
+Example C04_emin_full_nonvacuous :
+  match plain_aggregates (qc 1 16) pois5 (repeat (qc 0 1) 5) with
+  | AggOk count id st =>
+      let Pt := tentative_prolongation (S:=QcS) count id in
+      let fd := emin_filter pois5 st in
+      let po := emin_interpolation 1 (fst fd) (snd fd) Pt in
+      let R := emin_restriction 1 (fst fd) (snd fd) Pt (snd po) in
+      let po17 := emin_interpolation 17 (fst fd) (snd fd) Pt in
+      wf pois5 && Nat.eqb (ncols pois5) (nrows pois5) && emin_regular pois5 st && forallb sorted_strict (rows pois5)
+      && Nat.eqb count 2
+      && vec_eqb (map (emin_num QcS pois5 st Pt) [0; 1]%nat) [qc 3 1; qc 4 1]
+      && vec_eqb (map (emin_den QcS pois5 st Pt) [0; 1]%nat) [qc 15 4; qc 27 4]
+      && vec_eqb (snd po) [qc 4 5; qc 16 27]
+      && emin_formula_ok pois5 st Pt (fst po) R
+      && negb (crs_eqb (fst po) Pt)
+      && crs_eqb (fst po17) (fst po) && vec_eqb (snd po17) (snd po)
+      && crs_eqb (emin_restriction 17 (fst fd) (snd fd) Pt (snd po17)) R = true
+  | _ => False
+  end.
+Proof. vm_compute. reflexivity. Qed.
+
+(* non-vacuity of the zero-denominator theorem: 1-D Neumann Laplacian on 3 points, one aggregate:
+   den_0 = num_0 = 0, Omega_0 = 0, P = P_t *)
+Example C04_emin_zero_denominator_nonvacuous : emin_lap3_zero_den_check = true.
+Proof. exact emin_lap3_zero_den_check_true. Qed.
